@@ -5,7 +5,7 @@ from common import Run
 N_QUICK = 16
 N_THOROUGH = 160
 EXTRAS = {}
-FORCES = [dict(vectorized=True, prior_inplace=True, prior_object=False, pool_l=None), dict(n_live=8, n_update=1, n_batch=3, n_networks=0, family='twomode', n_dim=2, seed=22, discard_at_end=False, n_shell=5, n_eff=60, blob='none', toggles=0, resumes=2, pool_s=None, pool_l=None, vectorized=False, prior_object=False, prior_inplace=False, periodic=None, n_points_min=None, split_threshold=100, n_like_new_bound=None, direct_every=True), dict(n_live=8, n_update=1, n_batch=3, n_networks=0, family='funnel', n_dim=2, seed=3, discard_at_end=True, n_shell=5, n_eff=60, blob='none', toggles=0, resumes=1, pool_s=None, pool_l=None, vectorized=False, prior_object=False, prior_inplace=False, periodic=None, n_points_min=None, split_threshold=100, n_like_new_bound=None, direct_every=True), dict(n_live=10, n_update=1, n_batch=2, n_networks=0, family='gauss', n_dim=2, discard_at_end=True, n_shell=5, n_eff=150, blob='float', toggles=1, resumes=1, pool_s=None, pool_l=None, vectorized=False, prior_object=False, periodic=None, direct_every=True), dict(n_live=10, n_update=1, n_batch=2, n_networks=0, family='twomode', n_dim=2, discard_at_end=False, n_shell=5, n_eff=150, blob='two', toggles=2, resumes=0, pool_s=None, pool_l=None, vectorized=False, prior_object=False, periodic=None, direct_every=True),
+FORCES = [dict(vectorized=True, prior_inplace=True, prior_object=False, pool_l=None), dict(vectorized=False, prior_inplace=True, prior_object=False, early_posterior=True, pool_l=None), dict(n_live=8, n_update=1, n_batch=3, n_networks=0, family='twomode', n_dim=2, seed=22, discard_at_end=False, n_shell=5, n_eff=60, blob='none', toggles=0, resumes=2, pool_s=None, pool_l=None, vectorized=False, prior_object=False, prior_inplace=False, periodic=None, n_points_min=None, split_threshold=100, n_like_new_bound=None, direct_every=True), dict(n_live=8, n_update=1, n_batch=3, n_networks=0, family='funnel', n_dim=2, seed=3, discard_at_end=True, n_shell=5, n_eff=60, blob='none', toggles=0, resumes=1, pool_s=None, pool_l=None, vectorized=False, prior_object=False, prior_inplace=False, periodic=None, n_points_min=None, split_threshold=100, n_like_new_bound=None, direct_every=True), dict(n_live=10, n_update=1, n_batch=2, n_networks=0, family='gauss', n_dim=2, discard_at_end=True, n_shell=5, n_eff=150, blob='float', toggles=1, resumes=1, pool_s=None, pool_l=None, vectorized=False, prior_object=False, periodic=None, direct_every=True), dict(n_live=10, n_update=1, n_batch=2, n_networks=0, family='twomode', n_dim=2, discard_at_end=False, n_shell=5, n_eff=150, blob='two', toggles=2, resumes=0, pool_s=None, pool_l=None, vectorized=False, prior_object=False, periodic=None, direct_every=True),
           dict(n_shell=30, n_eff=600), dict(family='funnel', n_networks=0, n_shell=30, n_eff=800, n_batch=20, n_live=100, n_dim=2),
           dict(n_live=30, n_update=5, n_batch=7, n_shell=10), dict(n_networks=1, n_live=80, n_batch=20, n_shell=30),
           dict(family='funnel', n_networks=0, n_shell=50, n_eff=1000, n_batch=50, n_live=100, n_dim=2, resumes=1),
